@@ -50,6 +50,10 @@ CHECKS = {
             "Decides, for every text and every setting, the structural necessary conditions: in the 796 functions of the text modules no codepoint position is ever added to, compared with, passed as or stored as a byte position (unit inference seeded from the conversion functions, std string functions and declared field units; 957 values typed) and no two absolute positions are added; the two conversion functions answer Ok only under an exact match of the cursor and otherwise fall to Err, with no reachable panic; create_milestones runs only under interval > 0; milestone_interval is read only where milestones are placed; every exposure of the position index filters milestone-only entries (three raw low-level accessors are known findings). Numeric exactness of the counting loops is not decided.",
             "trusts rustc MIR, the unit seed tables in lib/units.py (each field unit is also checked at its initialisation sites), rules/units_ok.json (6 error-payload lines), syn",
             "DESIGN.md section 4 C12, A6", "mir+syn"),
+    "C07": ("other", "unit / coordinate-space inference over MIR; receiver-chain rule for haystacks (syn); taint from transformed copies (MIR provenance); finite evaluation of the capture-group folds; shape rule for the segmentation cursor",
+            "Decides the structural necessary conditions for every text and sub-selection: no codepoint/byte mix-up and no doubly applied begin offset anywhere in the search / split / trim / regex / segmentation code (this covers trim_text's cursors); FindText on a sub-selection uses the selection's own text as haystack; byte positions found in a lower/upper-cased or replaced copy never reach conversions on the original (one known finding: case-insensitive search); Match::begin / Match::end equal min start / max end for every list of up to three optional capture groups; each segment is cursor..X followed by cursor = X and iteration stops exactly at cursor >= end. Regex semantics and case folding are not decided.",
+            "trusts rustc MIR/syn, unit seed tables, the evaluator; matches themselves come from std/regex (trusted)",
+            "DESIGN.md section 4 C07, A6, A9", "mir+syn"),
 }
 
 NA = {
